@@ -68,12 +68,28 @@ def main(tier):
     sf = os.path.join(d, 'scenes.txt')
     RC.write_scenes(sf, scenes)
     of = os.path.join(d, 'frame.json')
-    rc, out = V.run([hr, 'frame', sf, of, str(V.seed())], timeout=2400)
-    if rc != 0:
-        raise V.Broken('h_route frame failed rc=%d %s' % (rc, out[-1000:]))
-    for x in json.load(open(of))['recs']:
-        x['kind'] = 'route'
-        recs.append(x)
+    # one harness process per restart: a scene in which the process dies (the known nudging defect F11 reads past a vector) is skipped
+    skip, died = 0, 0
+    while skip < len(scenes):
+        rc, out = V.run(['timeout', '-s', 'KILL', '2400', hr, 'frame', sf, of, str(V.seed()), str(skip)], timeout=2500)
+        got = 0
+        for ln in open(of, errors='replace'):
+            if ln.startswith(('{"mode"', ',{"mode"')):
+                try:
+                    x = json.loads(ln.lstrip(','))
+                except ValueError:
+                    break
+                x['kind'] = 'route'
+                recs.append(x)
+                got += 1
+        skip += got
+        if rc == 0:
+            break
+        died += 1
+        skip += 1
+        if died > 50:
+            raise V.Broken('h_route frame keeps dying: rc=%d %s' % (rc, out[-1000:]))
+    ev.cov['scenes_in_which_the_process_died'] = died
     nroute = len(recs)
     # ---- VPSC histories
     fh = os.path.join(d, 'hist.txt')
@@ -113,7 +129,7 @@ def main(tier):
             else:
                 brief = {k: v for k, v in x.items() if k not in ('A', 'B')}
             key = '%s:%s' % (x['kind'], name)
-            if not isinstance(t, str) and t[0].endswith((':an-end-lies-on-a-shape-boundary', ':direction-restricted-end')):
+            if not isinstance(t, str) and t[0].endswith((':an-end-lies-on-a-shape-boundary', ':direction-restricted-end', ':only-the-bend-count-differs')):
                 key = 'route:' + t[0]                      # one class whatever the symmetry
             vd.violation(key, '%s: %s' % (name, json.dumps(brief)[:700]), brief)
     ev.cov['evaluations'] = len(recs)
